@@ -793,7 +793,10 @@ static void oracle_on_query_locked(World &W, Peer &p, Exchange &x)
 		if (p.notify_consumed && now != p.wait_return_ns)
 			W.ctx.viol("C17", "notify-not-polled-at-once", "C17:poll:delay-after-notify", "socket %d polled %llu ms after consuming a Serial Notify", si,
 				   (unsigned long long)((now - p.wait_return_ns) / 1000000));
-		if (b.has_success && now > b.last_success_ns + ((uint64_t)b.refresh + 2) * SIM_NS)
+		// a PDU that was in flight at the deadline (header before, payload after it) may hold the client in its
+		// receive for up to the receive timeout; that is inherent to a blocking receive and not judged
+		uint64_t slack = p.stray_since_success ? 62 : 2;
+		if (b.has_success && now > b.last_success_ns + ((uint64_t)b.refresh + slack) * SIM_NS)
 			W.ctx.viol("C17", "poll-late", "C17:poll:later-than-refresh", "socket %d polled %llu s after its last synchronisation, refresh interval is %u s",
 				   si, (unsigned long long)((now - b.last_success_ns) / SIM_NS), b.refresh);
 		W.ctx.count(p.notify_consumed ? "probe_poll_after_notify" : "probe_poll_after_refresh");
@@ -991,6 +994,7 @@ void sync_exit_locked(World &W, int si, int rc)
 		b.version = w.version_after;
 		b.has_success = true;
 		b.last_success_ns = sim_now_ns();
+		p.stray_since_success = false;
 		// C17: interval fields
 		if (w.kind == WK_OK) {
 			expected_intervals(W.iv_mode, w.has_iv, w.iv, b);
@@ -1224,6 +1228,11 @@ extern "C" int __wrap_rtr_wait_for_sync(struct rtr_socket *s)
 		const uint8_t *h = &p.in_stream[p.sync_enter_consumed];
 		if (h[1] == PDU_SERIAL_NOTIFY && get32(h + 4) == 12)
 			p.notify_consumed = true;
+	}
+	if (p.consumed > p.sync_enter_consumed) { // some PDU was received (possibly slowly) during this wait
+		p.stray_since_success = true;
+		if (rc != RTR_SUCCESS)
+			W->ctx.count("probe_stray_pdu_while_established");
 	}
 	W->ctx.count("wait_calls");
 	return rc;
